@@ -142,10 +142,14 @@ func GetComments(node AstNodable) []string {
 
 func (s *Ast) inheritComments() bool { return false }
 func (s *Ast) getSubnodes() []AstNodable {
+	var callables []Callable
+	if s.Callables != nil {
+		callables = s.Callables.List
+	}
 	subs := make([]AstNodable, 0,
 		1+len(s.UserTypes)+
 			len(s.StructTypes)+
-			len(s.Callables.List)+
+			len(callables)+
 			len(s.Includes))
 	for _, n := range s.Includes {
 		subs = append(subs, n)
@@ -156,7 +160,7 @@ func (s *Ast) getSubnodes() []AstNodable {
 	for _, n := range s.StructTypes {
 		subs = append(subs, n)
 	}
-	for _, n := range s.Callables.List {
+	for _, n := range callables {
 		subs = append(subs, n)
 	}
 	if s.Call != nil {
